@@ -2242,6 +2242,7 @@ enum Op {
     SetAnchor { pool: Pool },
     SetWitness,
     Prove { pool: Pool },
+    ProveSap,
 }
 
 fn tin_class(f: u8) -> &'static str {
@@ -2267,12 +2268,30 @@ fn act_class(pool: Pool, f: u8) -> String {
 }
 
 fn have_proof_keys(keys: &ProvingKeys) -> bool {
-    keys.orchard_v5.is_some() || keys.orchard_v6.is_some()
+    keys.orchard_v5.is_some() && keys.orchard_v6.is_some() && keys.sapling.is_some()
 }
 
 struct ProvingKeys {
     orchard_v5: Option<orchard::circuit::ProvingKey>,
     orchard_v6: Option<orchard::circuit::ProvingKey>,
+    vk5: Option<orchard::circuit::VerifyingKey>,
+    vk6: Option<orchard::circuit::VerifyingKey>,
+    sapling: Option<zcash_proofs::prover::LocalTxProver>,
+}
+
+impl ProvingKeys {
+    fn none() -> Self {
+        ProvingKeys { orchard_v5: None, orchard_v6: None, vk5: None, vk6: None, sapling: None }
+    }
+    fn build() -> Self {
+        use orchard::circuit::{OrchardCircuitVersion as Ver, ProvingKey, VerifyingKey};
+        let (a, b) = std::thread::scope(|sc| {
+            let a = sc.spawn(|| (ProvingKey::build(Ver::FixedPostNu6_2), VerifyingKey::build(Ver::FixedPostNu6_2)));
+            let b = sc.spawn(|| (ProvingKey::build(Ver::PostNu6_3), VerifyingKey::build(Ver::PostNu6_3)));
+            (a.join().expect("key build"), b.join().expect("key build"))
+        });
+        ProvingKeys { orchard_v5: Some(a.0), vk5: Some(a.1), orchard_v6: Some(b.0), vk6: Some(b.1), sapling: Some(zcash_proofs::prover::LocalTxProver::bundled()) }
+    }
 }
 
 impl Op {
@@ -2297,6 +2316,7 @@ impl Op {
             Op::SetAnchor { pool } => ("set_anchor", pool.name().into()),
             Op::SetWitness => ("set_witness", "orchard".into()),
             Op::Prove { pool } => ("prove", pool.name().into()),
+            Op::ProveSap => ("prove", "sapling".into()),
         }
     }
 
@@ -2445,9 +2465,13 @@ impl Op {
                 let (_, i, path) = base.deferred.as_ref().ok_or("no deferred witness")?;
                 Updater::new(p).set_orchard_spend_witnesses([(*i, path.clone())]).map(|u| u.finish()).map_err(|x| e(&x))
             }
+            Op::ProveSap => {
+                let prover = keys.sapling.as_ref().ok_or("no sapling prover in this sequence")?;
+                Prover::new(p).create_sapling_proofs(prover, prover).map(|x| x.finish()).map_err(|x| e(&x))
+            }
             Op::Prove { pool } => {
                 let v6 = *p.global().tx_version() == 6;
-                let pk = if v6 { keys.orchard_v6.as_ref() } else { keys.orchard_v5.as_ref() }.ok_or("no proving key in this tier")?;
+                let pk = if v6 { keys.orchard_v6.as_ref() } else { keys.orchard_v5.as_ref() }.ok_or("no proving key in this sequence")?;
                 match pool {
                     Pool::Orchard => Prover::new(p).create_orchard_proof(pk).map(|x| x.finish()).map_err(|x| e(&x)),
                     Pool::Ironwood => Prover::new(p).create_ironwood_proof(pk).map(|x| x.finish()).map_err(|x| e(&x)),
@@ -2722,7 +2746,8 @@ fn pick_op(rng: &mut ChaCha20Rng, base: &Base, reds: &[RedactDef], l: &V, ncopie
                 1 => Op::SetAnchor { pool: Pool::Ironwood },
                 _ => Op::SetWitness,
             },
-            19 if keys.orchard_v5.is_some() && n_act > 0 && !v6 => Op::Prove { pool: Pool::Orchard },
+            19 if have_proof_keys(keys) && n_act > 0 && !v6 => Op::Prove { pool: Pool::Orchard },
+            19 if have_proof_keys(keys) && n_ss > 0 => Op::ProveSap,
             _ => continue,
         };
         return op;
@@ -2797,12 +2822,17 @@ fn run_sequence(w: &mut NdjsonWriter, rng: &mut ChaCha20Rng, base: &Base, reds: 
     if base.sapling_ask.is_some() {
         closing.push(Op::SignSap);
     }
-    if keys.orchard_v5.is_some() || keys.orchard_v6.is_some() {
-        if list_len(&proj[0].1, "orchard") > 0 {
+    if have_proof_keys(keys) {
+        // (a proof already brought in by a Combine is kept: the Prover is run only where one is missing)
+        let missing = |l: &V, b: usize| at(l, &[Step::F(b), Step::F(0)]).seq().len() > 0 && at(l, &[Step::F(b), Step::F(5)]).opt().is_none();
+        if missing(&proj[0].1, 3) {
             closing.push(Op::Prove { pool: Pool::Orchard });
         }
-        if list_len(&proj[0].1, "ironwood") > 0 {
+        if missing(&proj[0].1, 4) {
             closing.push(Op::Prove { pool: Pool::Ironwood });
+        }
+        if list_len(&proj[0].1, "sspend") + list_len(&proj[0].1, "soutput") > 0 {
+            closing.push(Op::ProveSap);
         }
     }
     if !base.tkeys.is_empty() {
@@ -2812,13 +2842,24 @@ fn run_sequence(w: &mut NdjsonWriter, rng: &mut ChaCha20Rng, base: &Base, reds: 
     for op in closing {
         all_ok &= apply_logged(w, base, reds, keys, &mut copies, &mut proj, 0, &op, ops_log, stats)?;
     }
-    let needs_proof = list_len(&proj[0].1, "orchard") + list_len(&proj[0].1, "ironwood") > 0 || base.sapling_ask.is_some();
-    let have_proof = have_proof_keys(keys) && base.sapling_ask.is_none();
+    let needs_proof = list_len(&proj[0].1, "orchard") + list_len(&proj[0].1, "ironwood") + list_len(&proj[0].1, "sspend") + list_len(&proj[0].1, "soutput") > 0;
+    let have_proof = have_proof_keys(keys);
     if all_ok && (!needs_proof || have_proof) {
         let p = copies[0].clone();
         let (pj, pl) = (&proj[0].0, &proj[0].1);
         let mut ev = event("extract", 1, "", "ok", pj, pj, vec![]);
-        match guarded(|| TransactionExtractor::new(p).extract()) {
+        let svk = keys.sapling.as_ref().map(|s| s.verifying_keys());
+        let v6 = *p.global().tx_version() == 6;
+        match guarded(|| {
+            let mut ex = TransactionExtractor::new(p);
+            if let Some(vk) = if v6 { keys.vk6.as_ref() } else { keys.vk5.as_ref() } {
+                ex = ex.with_orchard(vk);
+            }
+            if let Some((a, b)) = svk.as_ref() {
+                ex = ex.with_sapling(a, b);
+            }
+            ex.extract()
+        }) {
             Ok(Ok(tx)) => {
                 ev["txid_tx"] = json!(tx.txid().to_string());
                 let own = zip244::Tx::new(pl).txid().map(|mut t| {
@@ -3001,7 +3042,7 @@ fn role_slots(base: &Base, base_l: &V, reds: &[RedactDef]) -> Vec<RoleSlot> {
 /// Builds the parties of a case with real roles. Ok(None): some abstract value cannot be produced by
 /// a role (the case is skipped under this binding).
 fn role_parties(base: &Base, base_l: &V, reds: &[RedactDef], case: &J, bound: &BTreeMap<String, &RoleSlot>, st: &mut MergeStats) -> Result<Option<(Vec<Pczt>, Option<(V, Vec<u8>)>)>, J> {
-    let keys = ProvingKeys { orchard_v5: None, orchard_v6: None };
+    let keys = ProvingKeys::none();
     let ps = case["ps"].as_array().unwrap();
     // realisability
     for p in ps {
@@ -3146,14 +3187,10 @@ fn cmd_roles(trace_path: &str, nseq: usize, tier: &str) {
     let seed = seed_from_env();
     let mut rng = ChaCha20Rng::seed_from_u64(seed.wrapping_mul(0x9E37_79B9).wrapping_add(13));
     let reds = redactions();
-    let keys = if tier == "thorough" {
-        ProvingKeys {
-            orchard_v5: Some(orchard::circuit::ProvingKey::build(orchard::circuit::OrchardCircuitVersion::FixedPostNu6_2)),
-            orchard_v6: Some(orchard::circuit::ProvingKey::build(orchard::circuit::OrchardCircuitVersion::PostNu6_3)),
-        }
-    } else {
-        ProvingKeys { orchard_v5: None, orchard_v6: None }
-    };
+    let keys = ProvingKeys::build();
+    let no_keys = ProvingKeys::none();
+    // proofs: every shielded sequence in the thorough tier, the first two per shielded base otherwise
+    let mut proven: BTreeMap<&'static str, usize> = BTreeMap::new();
     let bases = bases_for(tier, seed);
     let mut w = NdjsonWriter::create(trace_path);
     let mut stats: BTreeMap<String, usize> = BTreeMap::new();
@@ -3172,7 +3209,12 @@ fn cmd_roles(trace_path: &str, nseq: usize, tier: &str) {
         let steps = if which == 0 { rng.gen_range(4..14) } else { rng.gen_range(3..9) };
         let mut ops_log = vec![];
         let start = w.1;
-        if let Err(e) = run_sequence(&mut w, &mut rng, base, &reds, &keys, steps, &mut ops_log, &mut stats) {
+        let with_proofs = which != 0 && {
+            let n = proven.entry(base.name).or_insert(0);
+            *n += 1;
+            tier == "thorough" || *n <= 2
+        };
+        if let Err(e) = run_sequence(&mut w, &mut rng, base, &reds, if with_proofs { &keys } else { &no_keys }, steps, &mut ops_log, &mut stats) {
             failure = Some(json!({"sequence": sidx, "base": base.name, "what": e, "ops": ops_log}));
             break;
         }
@@ -3188,6 +3230,7 @@ fn main() {
     match args.get(1).map(|s| s.as_str()) {
         Some("probe") => probe(),
         Some("probe_bsk") => probe_bsk(),
+        Some("probe_prove") => probe_prove(),
         Some("rerun") => cmd_rerun(&args[2]),
         Some("roles") => cmd_roles(&args[2], args[3].parse().expect("n"), args.get(4).map(|s| s.as_str()).unwrap_or("quick")),
         Some("probe_lock") => probe_lock(),
@@ -3240,6 +3283,42 @@ fn probe_lock() {
     println!("finalized:      txid {:?}", pczt_txid(&fin));
     let tx = TransactionExtractor::new(fin).extract().unwrap();
     println!("extracted:      txid {:?} lock_time {}", tx.txid(), tx.lock_time());
+}
+
+fn probe_prove() {
+    let t = std::time::Instant::now();
+    let pk5 = orchard::circuit::ProvingKey::build(orchard::circuit::OrchardCircuitVersion::FixedPostNu6_2);
+    println!("pk v5 {:?}", t.elapsed());
+    let t = std::time::Instant::now();
+    let pk6 = orchard::circuit::ProvingKey::build(orchard::circuit::OrchardCircuitVersion::PostNu6_3);
+    println!("pk v6 {:?}", t.elapsed());
+    let t = std::time::Instant::now();
+    let vk5 = orchard::circuit::VerifyingKey::build(orchard::circuit::OrchardCircuitVersion::FixedPostNu6_2);
+    println!("vk v5 {:?}", t.elapsed());
+    let b = base_o2o(1);
+    let t = std::time::Instant::now();
+    let p = Prover::new(b.pczt.clone()).create_orchard_proof(&pk5).map(|p| p.finish());
+    println!("o2o proof {:?} ok={}", t.elapsed(), p.is_ok());
+    let mut s = Signer::new(p.unwrap()).unwrap();
+    let (i, ask) = b.orchard_ask.as_ref().unwrap();
+    s.sign_orchard(*i, ask).unwrap();
+    let t = std::time::Instant::now();
+    let tx = TransactionExtractor::new(s.finish()).with_orchard(&vk5).extract();
+    println!("extract {:?} {:?}", t.elapsed(), tx.map(|t| t.txid()).map_err(|e| format!("{e:?}")));
+    let b = base_o2i(1);
+    let (anchor, i, path) = b.deferred.clone().unwrap();
+    let p = Updater::new(b.pczt.clone()).set_orchard_anchor(anchor).unwrap().set_orchard_spend_witnesses([(i, path)]).unwrap()
+        .set_ironwood_anchor(orchard::Anchor::empty_tree()).unwrap().finish();
+    let t = std::time::Instant::now();
+    let p = Prover::new(p).create_orchard_proof(&pk6).unwrap().create_ironwood_proof(&pk6).map(|p| p.finish());
+    println!("o2i proofs {:?} ok={}", t.elapsed(), p.is_ok());
+    let t = std::time::Instant::now();
+    let prover = zcash_proofs::prover::LocalTxProver::bundled();
+    println!("sapling params {:?}", t.elapsed());
+    let b = base_s2s(1);
+    let t = std::time::Instant::now();
+    let p = Prover::new(b.pczt.clone()).create_sapling_proofs(&prover, &prover).map(|p| p.finish());
+    println!("sapling proofs {:?} ok={}", t.elapsed(), p.is_ok());
 }
 
 fn probe() {
